@@ -39,6 +39,11 @@ def plan(tier, seed):
     for p in range(parts):
         shards.append(dict(name=f"small{p}", kind="small", L=L, part=p, parts=parts))
     shards.append(dict(name="type-subcommand", kind="typecmd", n=6 if q else 60))
+    # generated encodings of every type with every selector value (and light mutations of them): byte strings, too
+    types = cases.non_union_types()
+    nw = 3 if q else 8
+    for i in range(nw):
+        shards.append(dict(name=f"generated{i}", kind="generated", types=types[i::nw], per_type=2 if q else 20))
     return shards
 
 
@@ -140,6 +145,13 @@ def run_shard(shard, rec):
                     observe(rec, "Response", r, cc=cc, enc=enc, origin="wrong-code")
             observe(rec, "Response", c, cc=rng.choice(ccs), origin="wrong-type")
             observe(rec, "Command", r, origin="wrong-type")
+    elif k == "generated":
+        pool = []
+        for case in cases.struct_cases(shard["types"], rng, shard["per_type"], sweep=True):
+            observe(rec, case.t, case.d, origin="generated")
+            pool.append(case.d)
+            if case.d:
+                observe(rec, case.t, mutate(rng, case.d, pool[-20:] or [case.d]), origin="generated-mutated")
     elif k == "small":
         for case, T, _P in _strict.small_cases(shard["L"], shard["part"], shard["parts"]):
             observe(rec, case.t, case.d, T=T, origin="small")
